@@ -582,4 +582,30 @@ theorem C45_never_raises_weighted (ins : List (Input Rat)) (e : Err) (h : weight
   · rw [weightedLoop_type_error ins _ hn] at h
     cases h; left; rfl
 
+/-! ## no memory -/
+
+/-- **stateless**: what an arbiter leaves in its output share is a function of the CURRENT default
+and of the current selections, importances, truths and values of its inputs in construction order —
+nothing else (no earlier update, no stamp) enters: equal contents give equal outputs -/
+theorem C45_stateless (d d' : Default Rat) (ins ins' : List (Input Rat)) (hd : d = d') (hi : ins = ins') :
+    switch d ins = switch d' ins' ∧ priority d ins = priority d' ins' ∧
+    trusted d ins = trusted d' ins' ∧ weighted d ins = weighted d' ins' := by
+  subst hd; subst hi; exact ⟨rfl, rfl, rfl, rfl⟩
+
+/-- an unselected input does not matter at all (whatever its value, truth and importance) -/
+theorem C45_unselected_irrelevant (d : Default Rat) (pre post : List (Input Rat)) (i : Input Rat)
+    (h : i.sel = false) :
+    switch d (pre ++ i :: post) = switch d (pre ++ post) ∧
+    weighted d (pre ++ i :: post) = weighted d (pre ++ post) := by
+  constructor
+  · induction pre with
+    | nil => simp [switch, h]
+    | cons x t ih => simp only [List.cons_append, switch, ih]
+  · have hsel : selected (pre ++ i :: post) = selected (pre ++ post) := by
+      simp [selected, List.filter_append, h]
+    have hnum : AllNumeric (pre ++ i :: post) ↔ AllNumeric (pre ++ post) := by
+      unfold AllNumeric; rw [hsel]
+    rw [C45_weighted_average_iff_exceeds, C45_weighted_average_iff_exceeds, hsel]
+    simp only [hnum]
+
 end Ioflo.Arbiter
